@@ -2,6 +2,16 @@ use super::*;
 
 include!(concat!(env!("OUT_DIR"), "/consts.rs"));
 
+#[cfg(jence_verif)]
+pub fn verif_layout() -> ([u64; 64], [u64; 64], [usize; 64], [usize; 64], usize) {
+    (ROOK_MASK, BISHOP_MASK, ROOK_OFFSETS, BISHOP_OFFSETS, SLIDING_ATTACKS.len())
+}
+
+#[cfg(jence_verif)]
+pub fn verif_sliding(index: usize) -> u64 {
+    SLIDING_ATTACKS[index]
+}
+
 //Getters
 pub fn get_pawn_attack_table(square: u8, color: Color) -> Bitboard {
     Bitboard::from_u64(
